@@ -326,6 +326,11 @@ func (s *Server) Shutdown() {
 	// to other nodes.
 	s.shutdownUpstreamServer(ctx)
 
+	// The upstream connections are closed asynchronously. Wait for them to be
+	// deregistered so the node isn't still advertising upstreams when it
+	// leaves the cluster.
+	s.waitForUpstreamsDeregistered(ctx)
+
 	// Now we no longer have any connected upstreams, we'll no longer get
 	// requests from other cluster nodes so can shut down the proxy server.
 	s.shutdownProxyServer(ctx)
@@ -450,6 +455,20 @@ func (s *Server) shutdownUpstreamServer(ctx context.Context) {
 		s.logger.Error("failed to shutdown upstream server", zap.Error(err))
 	}
 	s.logger.Info("shutdown upstream server")
+}
+
+func (s *Server) waitForUpstreamsDeregistered(ctx context.Context) {
+	ticker := time.NewTicker(10 * time.Millisecond)
+	defer ticker.Stop()
+
+	for len(s.clusterState.LocalNode().Endpoints) > 0 {
+		select {
+		case <-ctx.Done():
+			s.logger.Warn("timed out waiting for upstreams to be deregistered")
+			return
+		case <-ticker.C:
+		}
+	}
 }
 
 func (s *Server) shutdownAdminServer(ctx context.Context) {
